@@ -17,6 +17,7 @@ color_formatter = formatters.TerminalTrueColorFormatter(style='stata-dark')
 DBG_TRACE = 7
 DBG_FSYSTEM = 3
 DBG_BSD = 4
+DBG_PERF = 0x25
 
 
 class PyKdebugParser:
@@ -65,6 +66,9 @@ class PyKdebugParser:
             extra_classes.append(DBG_TRACE)
             if DBG_BSD in self.filter_class or any(filter(lambda sc: sc >> 8 == DBG_BSD, self.filter_subclass)):
                 extra_classes.append(DBG_FSYSTEM)
+            if self.filter_process is not None:
+                # Sampler thread-info records declare the process of a thread, like the kernel trace records do.
+                extra_classes.append(DBG_PERF)
 
         traces_parser = TracesParser(trace_codes_map, self.threads_pids, self.pids_names)
         # Records of other threads carry state the requested thread's traces depend on (thread announcements, global
